@@ -7,11 +7,16 @@ with eq and by dump."""
 import vlib
 from checks import arithcommon as A
 
-OBLIGATIONS_PLANNED = [
-    "C04/P_add_comm.v", "C04/P_add_assoc.v", "C04/P_add_nary_perm.v", "C04/P_add_nary_binary.v", "C04/P_mul_comm.v",
-    "C04/P_mul_assoc.v", "C04/P_refuted.v", "C04/P_nonvacuous.v",
+OBLIGATIONS = [
+    "C04/P_add_comm.v",
+    "C04/P_add_assoc.v",
+    "C04/P_add_nary_perm.v",
+    "C04/P_add_nary_binary.v",
+    "C04/P_mul_comm.v",
+    "C04/P_mul_assoc.v",
+    "C04/P_nonvacuous.v",
 ]
-OBLIGATIONS = []
+REFUTATIONS = ['C04/P_refuted.v']
 PROOF_MODULES = []   # compiled by hand until listed in coq/_CoqProject (see the report)
 
 CORPUS_P = [
@@ -105,20 +110,25 @@ def parse_perm(line):
     if not parts or not parts[0].startswith("n="):
         return None
     hdr = dict(kv.split("=") for kv in parts[0].split())
-    res = {"n": int(hdr["n"]), "nclasses": int(hdr["classes"]), "classes": [], "calls": [], "oracle": oracle.strip()}
+    res = {"n": int(hdr["n"]), "nclasses": int(hdr["classes"]), "classes": [], "calls": [], "ops": [], "oracle": oracle.strip()}
     i = 1
-    while i < len(parts) and parts[i] != "calls":
+    while i < len(parts) and parts[i] not in ("calls", "ops"):
         form, _, out = parts[i].partition(" => ")
         f = out.split(" ;; ")
         res["classes"].append((form, f[0], f[1] if len(f) > 1 else "", f[2] if len(f) > 2 else ""))
         i += 1
+    if i < len(parts) and parts[i] == "ops":
+        i += 1
+        while i < len(parts) and parts[i] != "calls":
+            res["ops"].append(parts[i])
+            i += 1
     res["calls"] = A.parse_trace_line("", "\t".join(parts[i + 1:]))
     return res
 
 
 def run(ctx):
     ctx.gate(["Expr", "C04"])
-    ctx.prove(PROOF_MODULES, OBLIGATIONS)
+    A.prove(ctx, OBLIGATIONS, REFUTATIONS)
     drv, model = A.build(ctx)
     q = ctx.tier == "quick"
     rng = ctx.rng
@@ -145,6 +155,7 @@ def run(ctx):
     ctx.cov["distinct_nontrivial"] = len(stats["nontrivial"])
     ctx.cov["orders_and_groupings_compared"] = stats.get("combos", 0)
     ctx.cov["multisets"] = stats.get("multisets", 0)
+    ctx.cov["multisets_inside_theorem_fragment"] = stats.get("inside_theorem_fragment", 0)
     ctx.cov["rule"] = ("operand multisets of size 2..4 (thorough: ..5): three quarters share a base / a term so that exponents or coefficients merge, cancel "
                        "or sum to integers (bases: symbols, 2, 3, 6, 12, -2, 2/3, 4/9, x*y, 2x, -x, -2x, x+y, x**2, x**y, sin(x), pi, E, I, 1+I, sqrt(2); "
                        "exponents: integers, rationals, symbolic), a quarter are random operands of the classes of the property text; for each multiset ALL "
@@ -165,6 +176,7 @@ def explore(ctx, drv, model, cases, stats, search=False):
         return
     outs = ctx.run_lines(drv, cases, timeout=3000, shards=16)
     allcalls = []
+    parsed = []
     for case, line in zip(cases, outs):
         op = case.split(" ;; ")[0][2:].strip()
         operands = case.split(" ;; ")[1:]
@@ -177,6 +189,7 @@ def explore(ctx, drv, model, cases, stats, search=False):
             else:
                 ctx.broken.append({"kind": "correspondence", "name": "arith_driver P", "detail": "%s -> %s" % (case, line[-300:])})
             continue
+        parsed.append((case, p, op, operands))
         stats["multisets"] = stats.get("multisets", 0) + 1
         stats["combos"] = stats.get("combos", 0) + p["n"]
         for c in p["calls"]:
@@ -191,6 +204,22 @@ def explore(ctx, drv, model, cases, stats, search=False):
             ctx.violation("C04/nonunique:%s:%s" % (op, cls),
                           "%d orders/groupings of the operands {%s} under %s give %d different results: %s" % (
                               p["n"], ", ".join(operands), op, p["nclasses"], "  BUT  ".join(forms)), rep)
+    # which multisets lie inside the fragments of the theorems (guards evaluated by the extracted model on the
+    # operand dumps): inside, the library must be unique -- a non-unique multiset there contradicts a theorem
+    opd = sorted(set(d for _, p, _, _ in parsed for d in p["ops"] if d != "-" and "Opaque" not in d))
+    flags = dict(zip(opd, ctx.run_lines(model, ["guards ;; " + d for d in opd], timeout=1800, shards=16)))
+    for case, p, op, operands in parsed:
+        if op not in ("add", "mul") or not p["ops"]:
+            continue
+        fl = [flags.get(d, "000") for d in p["ops"]]
+        if any(len(f) != 3 or set(f) - set("01") for f in fl):
+            continue
+        inside = all(f[0] == "1" for f in fl) if op == "add" else all(f[2] == "1" for f in fl)
+        if inside:
+            stats["inside_theorem_fragment"] = stats.get("inside_theorem_fragment", 0) + 1
+            if p["oracle"]:
+                ctx.broken.append({"kind": "correspondence", "name": "C04 theorem guard vs library",
+                                   "detail": "operands satisfy the guard of the uniqueness theorem for %s but the library is not unique: %s" % (op, case)})
     # correspondence of the pairwise calls
     mo = A.model_calls(ctx, model, allcalls)
     seen = set()
